@@ -20,6 +20,7 @@ Theorem c14_source_shape :
   translated_vars = true /\ variables_variables_get_schema_ok = true /\ variables_variables_set_ok = true /\
   variables_variables_get_ok = true /\ variables_variables_list_ok = true /\ variables_parse_timezone_ok = true /\
   variables_re_timezone_ok = true /\ variables_validate_character_set_ok = true /\ variables_validators_ok = true /\
+  variables_validate_client_character_set_ok = true /\ variables_to_bool_ok = true /\
   variables_sessionvariables_schema_ok = true /\ variables_globalvariables_schema_ok = true /\
   session_session_set_var_middleware_ok = true /\ session_session_set_middleware_ok = true /\
   session_session_set_variable_ok = true /\ session_session_set_charset_ok = true /\ session_session_set_names_ok = true /\
